@@ -14,7 +14,7 @@ from vf.sim.scenario import Sim
 
 LEVEL = "exploration"
 RULE = ("address lists of 1-3 hosts from {v4 literal, v6 literal, v6%numeric-scope literal, bare name, x.local, x.local., FQDN, FQDN., bare name with a 64-byte label, .local name with a control character (both not expressible in mDNS)} x per-host mDNS outcome "
-        "{v4, v6, both, several of each, no answer within the timeout, raises} x per-host OS-resolver outcome {v4, v6, both (v4 first), empty, gaierror, "
+        "{v4, v6, both, several of each, addresses but an incomplete answer (request reports failure), no answer within the timeout, raises} x per-host OS-resolver outcome {v4, v6, both (v4 first), empty, gaierror, "
         "unknown address family only} x zeroconf provision {no manager, empty manager, supplied AsyncZeroconf, supplied Zeroconf, instance the library "
         "created earlier and still uses, empty manager on a host where no mDNS socket can be opened (followed by the application supplying its own instance)} x entry point {host_resolver.async_resolve_host, APIClient.start_connection (addresses captured at the "
         "resolve->connect boundary, TCP attempts at the fake sockets)}; complete for <= 2 hosts, seeded sample for 3; caller cancellation / 30 s resolve "
@@ -38,7 +38,7 @@ LITERAL = ("v4", "v6", "v6scope")
 NAMES = ("bare", "local", "local.")
 FQDN = ("fqdn", "fqdn.")
 UNEXPRESSIBLE = ("bare-64-byte-label", "local-control-char")   # bare / .local names that mDNS cannot express: the lookup fails before any request -> OS resolver
-MDNS_FOUND = ("v4", "v6", "both", "multi")
+MDNS_FOUND = ("v4", "v6", "both", "multi", "incomplete-both")   # incomplete: addresses received but no SRV/TXT within the timeout (request reports False)
 MDNS_NOTHING = ("none", "raise")
 OS_KINDS = ("v4", "v6", "both", "empty", "gaierror", "unknown-family")
 PROVISIONS = ("no-manager", "empty-manager", "supplied-async", "supplied-sync", "library-precreated", "empty-manager+create-fault")
@@ -58,6 +58,8 @@ def mdns_answer(kind: str, i: int) -> Any:
         return {"v4": [f"10.{i}.0.1"], "v6": [f"fd00:{i}::1"]}
     if kind == "multi":
         return {"v4": [f"10.{i}.0.1", f"10.{i}.0.2"], "v6": [f"fd00:{i}::1", f"fe80::{i}:2%{i + 4}"]}
+    if kind == "incomplete-both":
+        return {"v4": [f"10.{i}.0.1"], "v6": [f"fd00:{i}::1"], "incomplete": True}
     if kind == "none":
         return "none"
     if kind == "raise":
@@ -587,7 +589,7 @@ def shard(ctx: Ctx) -> None:
 
 
 def exhaustive(tier: str) -> Any:
-    subs = ["all single-host cases x 5 provisions x 2 entry points", "all ordered pairs of per-host options (75^2) for the direct/client entry"
+    subs = ["all single-host cases x 5 provisions x 2 entry points", "all ordered pairs of per-host options (78^2) for the direct/client entry"
             + (" x every provision" if tier == "thorough" else " with the provision rotating"),
             f"all ZeroconfManager operation sequences of length <= {5 if tier == 'thorough' else 4} over {{set_A, set_A_sync, set_B, get, close, get-while-creation-fails}} from 3 initial states"]
     return subs
